@@ -71,26 +71,26 @@ def main(chk):
     mean, var = frac(case['mean']), frac(case['var'])
     chk.count(key)
     bad = []
-    if abs(float(avg.compute()) - float(mean)) > 1e-6:
+    if not (abs(float(avg.compute()) - float(mean)) <= 1e-6):
       bad.append(f'Average {float(avg.compute())}, statistic of the stream {float(mean)}')
     st = wel.compute()
-    if abs(float(st.mean) - float(mean)) > 1e-5 or abs(float(st.standard_deviation) - float(var) ** 0.5) > 1e-4 or \
-       abs(float(st.standard_error_of_mean) - (float(var) ** 0.5) / n ** 0.5) > 1e-4:
+    if not (abs(float(st.mean) - float(mean)) <= 1e-5) or not (abs(float(st.standard_deviation) - float(var) ** 0.5) <= 1e-4) or \
+       not (abs(float(st.standard_error_of_mean) - (float(var) ** 0.5) / n ** 0.5) <= 1e-4):
       bad.append(f'Welford mean/std/sem {float(st.mean)}/{float(st.standard_deviation)}/{float(st.standard_error_of_mean)}, '
                  f'stream {float(mean)}/{float(var) ** 0.5}/{(float(var) ** 0.5) / n ** 0.5}')
     want_b = sum(1 for v, l in zip(xs, labels_all) if (v >= 2) == (l > 0)) / n
-    if abs(float(acc_b.compute()) - want_b) > 1e-6:
+    if not (abs(float(acc_b.compute()) - want_b) <= 1e-6):
       bad.append(f'binary Accuracy {float(acc_b.compute())}, over all values {want_b}')
     want_m = sum(1 for v, l in zip(xs, labels_all) if (0 if v >= 2 else 1) == l) / n
-    if abs(float(acc_m.compute()) - want_m) > 1e-6:
+    if not (abs(float(acc_m.compute()) - want_m) <= 1e-6):
       bad.append(f'multi-class Accuracy {float(acc_m.compute())}, over all values {want_m}')
     r = mm.compute()
-    if abs(float(r['a']) - float(mean)) > 1e-6 or abs(float(r['w'].mean) - float(mean)) > 1e-5:
+    if not (abs(float(r['a']) - float(mean)) <= 1e-6) or not (abs(float(r['w'].mean) - float(mean)) <= 1e-5):
       bad.append('MultiMetric differs from its component metrics')
     st2, r2 = wel2.compute(), mm2.compute()
-    if abs(float(avg2.compute()) - float(mean)) > 1e-6 or abs(float(st2.mean) - float(mean)) > 1e-5 or \
-       abs(float(st2.standard_deviation) - float(var) ** 0.5) > 1e-4 or abs(float(acc2.compute()) - want_m) > 1e-6 or \
-       abs(float(r2['a']) - float(mean)) > 1e-6 or abs(float(r2['acc']) - want_m) > 1e-6:
+    if not (abs(float(avg2.compute()) - float(mean)) <= 1e-6) or not (abs(float(st2.mean) - float(mean)) <= 1e-5) or \
+       not (abs(float(st2.standard_deviation) - float(var) ** 0.5) <= 1e-4) or not (abs(float(acc2.compute()) - want_m) <= 1e-6) or \
+       not (abs(float(r2['a']) - float(mean)) <= 1e-6) or not (abs(float(r2['acc']) - want_m) <= 1e-6):
       bad.append(f'with batches of rank >= 2: Average {float(avg2.compute())} / Welford mean {float(st2.mean)} std {float(st2.standard_deviation)} / '
                  f'Accuracy {float(acc2.compute())} / MultiMetric {float(r2["a"])}, {float(r2["acc"])}; over all values {float(mean)} / '
                  f'{float(var) ** 0.5} / {want_m}')
@@ -261,17 +261,17 @@ def main(chk):
           if got[k].dtype != hp[k].dtype or not np.array_equal(np.asarray(got[k], np.float32), np.asarray(hp[k], np.float32)):
             chk.violation(tag + ':' + wname, f'{wname}: param {k} = {got[k]} ({got[k].dtype}), optax by hand {hp[k]} ({hp[k].dtype})', {})
   # ---- a Param with a value hook (a projection): the optimizer writes parameters and its own state without running user hooks on the slots
-  for name in ('momentum', 'adam'):
+  for name, hookname in (('momentum', 'on_set_value'), ('adam', 'on_set_value'), ('momentum', 'on_get_value'), ('adam', 'on_get_value')):
     mk = (lambda: optax.chain(optax.trace(decay=0.5), optax.scale(-0.5))) if name == 'momentum' else (lambda: optax.adam(0.1))
     hooked = []
 
     def proj(var, v):
       hooked.append(1)
-      return jnp.maximum(v, 0.0)
+      return jnp.maximum(v, 0.0) if hookname == 'on_set_value' else v * 2.0 + 1.0
 
     class N4(nnx.Module):
       def __init__(self):
-        self.a = nnx.Param(jnp.asarray([1.0, 2.0]), on_set_value=proj)
+        self.a = nnx.Param(jnp.asarray([1.0, 2.0]), **{hookname: proj})
     net = N4()
     o = nnx.Optimizer(net, mk())
     tx = mk()
@@ -282,12 +282,12 @@ def main(chk):
       o.update(jax.tree_util.tree_map(lambda x: g, nnx.state(net, nnx.Param)))
       u, hs = tx.update({'a': g}, hs, hp)
       hp = optax.apply_updates(hp, u)
-    chk.count(('C17:hooked', name))
+    chk.count(('C17:hooked', name, hookname))
     slots = [np.asarray(x) for x in jax.tree_util.tree_leaves(nnx.state(o, nnx.optimizer.OptState)) if np.asarray(x).shape == (2,)]
     hand = [np.asarray(x) for x in jax.tree_util.tree_leaves(hs) if np.asarray(x).shape == (2,)]
-    if not np.allclose(np.asarray(net.a.value), np.asarray(hp['a']), rtol=1e-6) or len(slots) != len(hand) or \
+    if not np.allclose(np.asarray(net.a.raw_value), np.asarray(hp['a']), rtol=1e-6) or len(slots) != len(hand) or \
        any(not np.allclose(a, b, rtol=1e-6) for a, b in zip(slots, hand)):
-      chk.violation(f'C17:hooked:{name}', f'nnx.Optimizer on a Param with an on_set_value hook: param {net.a.value}, optimizer slots {slots}; '
+      chk.violation(f'C17:hooked:{name}:{hookname}', f'nnx.Optimizer on a Param with an {hookname} hook: param (raw) {net.a.raw_value}, optimizer slots {slots}; '
                                           f'optax by hand {hp["a"]}, {hand} (the hook ran {len(hooked)} times)', {})
   chk.assumptions.append('adam-family transformations are compared with the hand-written optax loop (differential oracle named by the property)')
   chk.finish(rule='all streams (len <= 4, values 0..3) x ordered partitions (sampled in quick); all (tx, wrt, gradient sequence len <= 3)',
